@@ -3,18 +3,57 @@
 //! One case = (window size, minimum delay, lifecycle table + its visibility, message stream).
 //! The real function is fed through an mpsc channel, the lifecycle table is a real evmap read handle
 //! (published / never refreshed / destroyed), the outflow closure collects the delivered messages.
+//! The table entries are real `Lifecycle` values of every kind the table can hold: plain ones, resumed ones
+//! (start after / equal to / before the start recorded for the lifecycle they resume, chains), made with the
+//! cfg(adlt_verif) constructor or through the public API (`Lifecycle::new` + `Lifecycle::update` sequences, as the
+//! lifecycle detection does).  What the entries look like through their public accessors goes into the Coq case;
+//! the model takes `start_time` of it.
 //! Observation: positions (in the input) of the delivered messages in delivery order + "fields intact".
 //! Oracle (the property text, independent of the model): permutation + intact always; ordered by
-//! (calculated time, index) with ties in original order whenever the bound hypothesis holds.
+//! (calculated time, index) with ties in original order whenever the bound hypothesis holds; calculated time =
+//! start_time of the entry under the message's lifecycle id + timestamp, capped at the reception time.
 use adlt::dlt::DltMessage;
 use adlt::lifecycle::{Lifecycle, LifecycleId, LifecycleItem};
 use std::sync::mpsc::channel;
 use vharness::*;
 
 const US_PER_SEC: u64 = 1_000_000;
+/// what parse_lifecycles_buffered_from_stream passes to Lifecycle::update
+const LC_MAX_BUFFERING_DELAY_US: u64 = 60 * US_PER_SEC;
 
 /// (index, reception time us, ecu number, timestamp dms, ext code (0: no extended header, else 1 + verb_mstp_mtin), lifecycle id)
 type RawMsg = (u32, u64, u8, u32, u16, u32);
+
+/// one message handed to the lifecycle API: (reception time us, timestamp dms, kind 0: with timestamp, 1: control request,
+/// 2: without timestamp)
+type ApiOp = (u64, u32, u8);
+
+/// how a table entry (a `Lifecycle` value) is made
+#[derive(Clone, Debug, PartialEq)]
+enum Build {
+    /// `Lifecycle::new(dummy message)` with the pub field `start_time` assigned
+    Plain(u64),
+    /// the cfg(adlt_verif) constructor: start_time, ecu, resume origin (id, start time recorded for it)
+    Direct { start: u64, ecu: u8, resume: Option<(u32, u64)> },
+    /// the public API as the lifecycle detection uses it: `Lifecycle::new(first)`, then `current.update(next, 60 s)`;
+    /// a lifecycle returned by update becomes the current one.  The entry is the k-th lifecycle created (the last
+    /// one if there are fewer)
+    Api { ecu: u8, ops: Vec<ApiOp>, k: u8 },
+}
+/// (key in the table, the entry)
+type Entry = (u32, Build);
+
+/// a table entry seen through the public interface of `Lifecycle`
+#[derive(Clone, Debug, PartialEq)]
+struct View {
+    start: u64,
+    is_resume: bool,
+    resume_start: u64,
+    resume_time: u64,
+    end: u64,
+    suspend: u64,
+    nr: u32,
+}
 
 #[derive(Clone, Debug)]
 struct CaseIn {
@@ -22,10 +61,10 @@ struct CaseIn {
     mind: u64,
     /// 0: published, 1: inserted but never refreshed (read() yields None), 2: published, then the write handle dropped
     table_mode: u8,
-    table: Vec<(u32, u64)>,
+    table: Vec<Entry>,
     /// table changes made from inside the outflow closure: (after this many delivered messages, new table;
     /// None = the write handle is dropped, the map is destroyed).  Deterministic stand-in for the concurrent writer.
-    changes: Vec<(usize, Option<Vec<(u32, u64)>>)>,
+    changes: Vec<(usize, Option<Vec<Entry>>)>,
     msgs: Vec<RawMsg>,
 }
 
@@ -34,6 +73,88 @@ fn new_lc_item(start: u64) -> Lifecycle {
     let mut lc = Lifecycle::new(&mut dummy);
     lc.start_time = start;
     lc
+}
+
+fn api_msg(ecu: u8, op: &ApiOp) -> DltMessage {
+    let (rt, ts, kind) = *op;
+    let mut m = dltgen::plain_msg(0, ecu, rt, ts);
+    match kind {
+        1 => m = dltgen::with_ext(m, 0x16, 0, b"APID", b"CTID"),
+        2 => m.standard_header.htyp &= !0x10,
+        _ => {}
+    }
+    m
+}
+
+/// the lifecycles the detection would create for these messages of one ECU (no merging), in creation order
+fn api_chain(ecu: u8, ops: &[ApiOp]) -> Vec<Lifecycle> {
+    let mut chain = vec![];
+    let mut m = api_msg(ecu, &ops[0]);
+    let mut cur = Lifecycle::new(&mut m);
+    for op in &ops[1..] {
+        let mut m = api_msg(ecu, op);
+        if let Some(n) = cur.update(&mut m, LC_MAX_BUFFERING_DELAY_US) {
+            chain.push(cur);
+            cur = n;
+        }
+    }
+    chain.push(cur);
+    chain
+}
+
+fn materialize(e: &Entry) -> Lifecycle {
+    match &e.1 {
+        Build::Plain(s) => new_lc_item(*s),
+        Build::Direct { start, ecu, resume } => Lifecycle::verif_new(e.0, dltgen::ecu(*ecu), *start, *resume),
+        Build::Api { ecu, ops, k } => {
+            if ops.is_empty() {
+                return new_lc_item(0);
+            }
+            let mut c = api_chain(*ecu, ops);
+            let k = (*k as usize).min(c.len() - 1);
+            c.swap_remove(k)
+        }
+    }
+}
+
+fn view_of(l: &Lifecycle) -> View {
+    // the derived times can overflow for extreme entries (the sort never calls them): u64::MAX then
+    let safe = |f: &dyn Fn() -> u64| catch(std::panic::AssertUnwindSafe(|| f())).unwrap_or(u64::MAX);
+    View {
+        start: l.start_time,
+        is_resume: l.is_resume(),
+        resume_start: safe(&|| l.resume_start_time()),
+        resume_time: safe(&|| l.resume_time()),
+        end: safe(&|| l.end_time()),
+        suspend: safe(&|| l.suspend_duration()),
+        nr: l.nr_msgs,
+    }
+}
+
+/// a table version as the oracle and the Coq side see it: (key, start time for the oracle, accessor view)
+type MatTable = Vec<(u32, u64, View)>;
+struct Mat {
+    table: MatTable,
+    changes: Vec<(usize, Option<MatTable>)>,
+}
+fn mat_table(t: &[Entry]) -> MatTable {
+    t.iter()
+        .map(|e| {
+            let v = view_of(&materialize(e));
+            // the lifecycle start of the property text: the number the entry was made with; for entries made by the
+            // public API the value of the pub field start_time
+            let start = match &e.1 {
+                Build::Plain(s) => *s,
+                Build::Direct { start, .. } => *start,
+                Build::Api { .. } => v.start,
+            };
+            assert_eq!(start, v.start, "harness: entry not built as specified");
+            (e.0, start, v)
+        })
+        .collect()
+}
+fn mat_of(c: &CaseIn) -> Mat {
+    Mat { table: mat_table(&c.table), changes: c.changes.iter().map(|(at, t)| (*at, t.as_ref().map(|t| mat_table(t)))).collect() }
 }
 
 fn build_msg(pos: usize, r: &RawMsg) -> DltMessage {
@@ -62,8 +183,8 @@ fn run_impl(c: &CaseIn) -> Result<(Vec<usize>, bool), String> {
     catch_loc(move || {
         let inputs: Vec<DltMessage> = c.msgs.iter().enumerate().map(|(p, r)| build_msg(p, r)).collect();
         let (lcs_r, mut lcs_w) = evmap::new::<LifecycleId, LifecycleItem>();
-        for (id, start) in &c.table {
-            lcs_w.insert(*id, new_lc_item(*start));
+        for e in &c.table {
+            lcs_w.insert(e.0, materialize(e));
         }
         if c.table_mode != 1 {
             lcs_w.refresh();
@@ -101,8 +222,8 @@ fn run_impl(c: &CaseIn) -> Result<(Vec<usize>, bool), String> {
                                             w.empty(*id);
                                         }
                                     }
-                                    for (id, start) in t.iter() {
-                                        w.update(*id, new_lc_item(*start));
+                                    for e in t.iter() {
+                                        w.update(e.0, materialize(e));
                                     }
                                     w.refresh();
                                     *cont = t.iter().map(|x| x.0).collect();
@@ -138,44 +259,50 @@ fn run_impl(c: &CaseIn) -> Result<(Vec<usize>, bool), String> {
     })
 }
 
-/// the calculated time as the property words it; None if the sum does not fit u64 (outside the domain)
-fn calc_of(c: &CaseIn, r: &RawMsg) -> Option<u64> {
+/// the calculated time as the property words it (lifecycle start = start time of the table entry under the message's
+/// lifecycle id, 0 without entry or without published table); None if the sum does not fit u64 (outside the domain).
+/// `key` selects what is taken as an entry's start: the oracle uses the start time; the tags also ask what the key
+/// would be under other readings of the entry.
+fn calc_with(c: &CaseIn, mt: &Mat, r: &RawMsg, key: &dyn Fn(&(u32, u64, View)) -> u64) -> Option<u64> {
     let (_, rt, _, ts, ext, lc) = *r;
     if is_ctrl_request(ext) {
         return Some(rt);
     }
-    let start = if c.table_mode == 0 { c.table.iter().find(|(id, _)| *id == lc).map(|x| x.1).unwrap_or(0) } else { 0 };
+    let start = if c.table_mode == 0 { mt.table.iter().find(|x| x.0 == lc).map(|x| key(x)).unwrap_or(0) } else { 0 };
     // with a changing table every version must fit (the ordering clause is only evaluated for a fixed table)
-    for (_, t) in c.changes.iter() {
+    for (_, t) in mt.changes.iter() {
         if let Some(t) = t {
-            let st = t.iter().find(|(id, _)| *id == lc).map(|x| x.1).unwrap_or(0);
+            let st = t.iter().find(|x| x.0 == lc).map(|x| key(x)).unwrap_or(0);
             st.checked_add(ts as u64 * 100)?;
         }
     }
     start.checked_add(ts as u64 * 100).map(|t| t.min(rt))
 }
+fn calc_of(c: &CaseIn, mt: &Mat, r: &RawMsg) -> Option<u64> {
+    calc_with(c, mt, r, &|x| x.1)
+}
 
-fn in_overflow_domain(c: &CaseIn) -> bool {
+fn in_overflow_domain(c: &CaseIn, mt: &Mat) -> bool {
     // sums the function forms: start + timestamp, reception + window span, min_delay + max(1000 s, delay), calc + threshold
     let maxrt = c.msgs.iter().map(|m| m.1).max().unwrap_or(0) as u128;
     let fits = 2 * maxrt + c.mind as u128 + 1000 * US_PER_SEC as u128 + 255 * US_PER_SEC as u128 <= u64::MAX as u128;
-    fits && c.msgs.iter().all(|m| calc_of(c, m).is_some())
+    fits && c.msgs.iter().all(|m| calc_of(c, mt, m).is_some())
 }
 
-fn hypothesis_holds(c: &CaseIn) -> bool {
+fn hypothesis_holds(c: &CaseIn, mt: &Mat) -> bool {
     c.changes.is_empty() && c.msgs.windows(2).all(|p| p[0].1 <= p[1].1 && p[0].0 < p[1].0)
-        && c.msgs.iter().all(|m| match calc_of(c, m) {
+        && c.msgs.iter().all(|m| match calc_of(c, mt, m) {
             Some(calc) => m.1 - calc <= c.mind,
             None => false,
         })
 }
 
-fn oracle(c: &CaseIn, r: &Result<(Vec<usize>, bool), String>) -> Verdict {
+fn oracle(c: &CaseIn, mt: &Mat, r: &Result<(Vec<usize>, bool), String>) -> Verdict {
     let fail = |cl: &str, d: String| Verdict::Fail { clause: cl.into(), detail: d };
     let (tags, intact) = match r {
         Err(e) => {
             // window size 0 and sums beyond u64 are outside the quantifier
-            if (c.w == 0 && !c.msgs.is_empty()) || !in_overflow_domain(c) {
+            if (c.w == 0 && !c.msgs.is_empty()) || !in_overflow_domain(c, mt) {
                 return Verdict::Ok;
             }
             return fail("no_panic", e.clone());
@@ -196,10 +323,10 @@ fn oracle(c: &CaseIn, r: &Result<(Vec<usize>, bool), String>) -> Verdict {
     if !intact {
         return fail("messages_unaltered", "a delivered message differs from the message put in".into());
     }
-    if hypothesis_holds(c) {
+    if hypothesis_holds(c, mt) {
         for p in tags.windows(2) {
             let (a, b) = (&c.msgs[p[0]], &c.msgs[p[1]]);
-            let (ca, cb) = (calc_of(c, a).unwrap(), calc_of(c, b).unwrap());
+            let (ca, cb) = (calc_of(c, mt, a).unwrap(), calc_of(c, mt, b).unwrap());
             if ca > cb || (ca == cb && p[0] > p[1]) {
                 return fail("ordered_under_bound", format!("input positions {} (calc {}) before {} (calc {})", p[0], ca, p[1], cb));
             }
